@@ -7,7 +7,7 @@ from ..decide import require_instances, Runs, need_ge0, need_eq0, definite, soft
 from ..report import Ob, PROVED, REFUTED, UNDECIDED, func_where, ASSUMPTIONS, Failure
 from ..units import exc_key
 from .. import seqops
-from .vbs import ReaderRuns, reader_reads, same_seq, MLIB, STOP, unpacked_length
+from .vbs import ReaderRuns, reader_reads, same_seq, MLIB, STOP, unpacked_length, direct_framing, NOT_DIRECT
 from .c07 import escape_obs
 from . import c05
 from .c04 import PAYLOAD, BLOCK
@@ -37,6 +37,8 @@ def check(prog, res, tier):
             fails = []
             if not reads:
                 return [soft('no read observed')]
+            if not direct_framing(p, reads):
+                return [soft(NOT_DIRECT)]
             pre = reads[0][1]
             short_prefix = st.prove_ge0(Lin.const(3) - pre.length())
             if short_prefix:
@@ -96,6 +98,13 @@ def check(prog, res, tier):
                 fails += need_ge0(st, Lin.const(PAYLOAD) - (t.hi - t.lo), 'trailer bytes of a block reach the payload stream')
         # a non-empty block is always appended; only the empty read ends the refill
         evs = [e for e in p.events if e.under(c05.READ) or (e.kind == 'leave' and e.data.get('callee') == c05.READ)]
+        for e in evs:
+            if e.kind == 'read' and e.data['file'] is f and e.data['size'] is not None:
+                szc = st.canon(Lin.of(e.data['size']))
+                if not (szc.is_const() and szc.c == c05.BLOCK):
+                    seen_c['reads'] += mode == 'inv'
+                    return fails + [soft(f'the unblocker reads {szc} bytes at a time, not one block: what becomes of a partial last '
+                                         f'block is outside the model of this rule', e.node)]
         for i, e in enumerate(evs):
             if e.kind == 'read' and e.data['file'] is f:
                 seen_c['reads'] += mode == 'inv'
@@ -133,6 +142,8 @@ def check(prog, res, tier):
             if not (isinstance(v, DictV) and v.desc == 'message'):
                 return [definite(f'IpmReader returns {v!r}, not the dictionary produced by iso8583.loads')]
             reads = reader_reads(p)
+            if not direct_framing(p, reads):
+                return [soft(NOT_DIRECT)]
             arg = calls[0].data['args'][0] if calls[0].data['args'] else None
             if len(reads) == 2 and not same_seq(p, arg, reads[1][1]):
                 return [definite('iso8583.loads is not given the complete record just read')]
